@@ -168,6 +168,23 @@ func (vc *VC) call(fr *Frame, instr ssa.Instruction, c *ssa.CallCommon, st *Stat
 				return vc.applyContract(fr, instr, spec, name, names, args, resType, sig, st, nil)
 			}
 		}
+		if fnVal.FnField != "" {
+			if spec := vc.eng.specs.Funcs[fnVal.FnField]; spec != nil {
+				sig := c.Signature()
+				var names []string
+				for i := 0; i < sig.Params().Len(); i++ {
+					n := sig.Params().At(i).Name()
+					if len(spec.Params) > i {
+						n = spec.Params[i]
+					} else if n == "" || n == "_" {
+						n = fmt.Sprintf("p%d", i)
+					}
+					names = append(names, n)
+				}
+				name := fnVal.FnField[strings.Index(fnVal.FnField, "::")+2:]
+				return vc.applyContract(fr, instr, spec, name, names, args, resType, sig, st, nil)
+			}
+		}
 		vc.opaque["call through function value "+c.Value.Name()+" in "+fr.fn.Name()+" (results arbitrary; heap havoc)"] = true
 		vc.havocAll(st)
 		return vc.freshResult(st, resType, "dyncall")
